@@ -593,11 +593,32 @@ def c01_11(ctx):
     l = r.fn('_zip:lens')
     expect_guards(ctx, l, [('len0(values) == 0', 'return 0', 'no columns, no rows')], where=l.body)
     v = r.fn('_dictable:_value')
-    expect_guards(ctx, v, [('value is None', 'return [None]', 'None is a one-cell column'),
-                           ('isinstance(value, (dict_values, dict_keys, range))', 'return list(value)', 'views are materialised')])
-    ctx.count(1)
-    rr = returns_of(v.node)
-    if not rr or N(rr[-1].value) != NS('list(value) if isinstance(value, tuple) else as_list(value)'):
+    # spelling-independent table: None -> [None]; views, ranges and tuples -> list(value); anything else -> as_list(value)
+    LISTED = {'dict_values', 'dict_keys', 'range', 'tuple'}
+    seen = set()
+    for p in sym_paths(v):
+        if p.term != 'return':
+            continue
+        ctx.count(1, v.where(p.node))
+        yes, no, isnone = set(), set(), None
+        for txt, pol, e in p.atoms():
+            kind, keys = classify_test(e)
+            if kind == 'isinstance:value':
+                (yes if pol else no).update(keys)
+            if txt == NS('value is None'):
+                isnone = pol
+        if isnone:
+            want, k = '[None]', 'none'
+        elif yes and yes <= LISTED:
+            want, k = 'list(value)', 'listed'
+        elif not yes and LISTED <= no:
+            want, k = 'as_list(value)', 'other'
+        else:
+            want, k = None, None
+        seen.add(k)
+        if want is None or p.text() != want:
+            ctx.fail(v, p.node, '_value returns `%s` when [%s]; expected [None] for None, list(value) for dict views / ranges / tuples and as_list(value) otherwise' % (p.text(), ' & '.join(('' if q else 'not ') + t for t, q, _ in p.conds)))
+    if not ctx.findings and seen != {'none', 'listed', 'other'}:
         ctx.fail(v, v.node, '_value does not turn tuples into lists and scalars into one-element lists')
 
 
